@@ -249,6 +249,19 @@ where
         let c = sc_unhex(c);
         pc.h_base_compressed = (&pc.h_base * c).compress();
     }
+    if let Some(c) = spec["hp_scale"].as_str() {
+        // only the POINT of the value generator is another one; the cached encoding is left stale (public fields of PedersenGens)
+        let c = sc_unhex(c);
+        pc.h_base = &pc.h_base * c;
+    }
+    if let Some(arr) = spec["gbp_scale"].as_array() {
+        // only the POINT of a blinding generator is another one; the cached encoding is left stale
+        let k = arr[0].as_u64().unwrap() as usize;
+        let c = sc_unhex(arr[1].as_str().unwrap());
+        if k < pc.g_base_vec.len() {
+            pc.g_base_vec[k] = &pc.g_base_vec[k] * c;
+        }
+    }
     if let Some(c) = spec["gb0_eq_cH"].as_str() {
         // degenerate Pedersen generators: Gb_0 = c * H (two openings can then share one commitment)
         let c = sc_unhex(c);
@@ -339,7 +352,7 @@ fn params_key(spec: &Value) -> String {
     format!(
         "{}|{}|{}|{}|{}|{}|{}",
         spec["bits"], spec["cap"], spec["T"], spec["h_scale"], spec["gb_scale"], spec["gb0_eq_cH"], spec["gb_eq"]
-    ) + &format!("|{}|{}", spec["gbc_scale"], spec["hc_scale"])
+    ) + &format!("|{}|{}|{}|{}", spec["gbc_scale"], spec["hc_scale"], spec["hp_scale"], spec["gbp_scale"])
 }
 
 /// with a cache: statements asking for the same parameter set share ONE parameter object (clones of it: same generator tables behind the
